@@ -604,6 +604,27 @@ type (
 
 var stable = component.StabilityLevelStable
 
+var levelByName = map[string]component.StabilityLevel{
+	"Unmaintained": component.StabilityLevelUnmaintained,
+	"Deprecated":   component.StabilityLevelDeprecated,
+	"Development":  component.StabilityLevelDevelopment,
+	"Alpha":        component.StabilityLevelAlpha,
+	"Beta":         component.StabilityLevelBeta,
+	"Stable":       component.StabilityLevelStable,
+}
+
+// Level converts a level name (LevelNames) to the collector's constant; anything else is Stable —
+// never Undefined: every cell the test factories register is a supported one.
+func Level(name string) component.StabilityLevel {
+	if l, ok := levelByName[name]; ok {
+		return l
+	}
+	return stable
+}
+
+// lv is the stability level the factory of component type ty declares for the signal.
+func (w *World) lv(ty, sig string) component.StabilityLevel { return Level(w.T.LevelOf(ty, sig)) }
+
 func newCfg() component.Config { return &struct{}{} }
 
 // receivers -------------------------------------------------------------------
@@ -625,16 +646,16 @@ func (w *World) receiverFactory() receiver.Factory {
 	return xreceiver.NewFactory(component.MustNewType(RecvType), newCfg,
 		xreceiver.WithProfiles(func(_ context.Context, s receiver.Settings, _ component.Config, n xconsumer.Profiles) (xreceiver.Profiles, error) {
 			return mk("profiles", s.ID, n), nil
-		}, stable),
+		}, w.lv(RecvType, "profiles")),
 		xreceiver.WithLogs(func(_ context.Context, s receiver.Settings, _ component.Config, n consumer.Logs) (receiver.Logs, error) {
 			return mk("logs", s.ID, n), nil
-		}, stable),
+		}, w.lv(RecvType, "logs")),
 		xreceiver.WithMetrics(func(_ context.Context, s receiver.Settings, _ component.Config, n consumer.Metrics) (receiver.Metrics, error) {
 			return mk("metrics", s.ID, n), nil
-		}, stable),
+		}, w.lv(RecvType, "metrics")),
 		xreceiver.WithTraces(func(_ context.Context, s receiver.Settings, _ component.Config, n consumer.Traces) (receiver.Traces, error) {
 			return mk("traces", s.ID, n), nil
-		}, stable))
+		}, w.lv(RecvType, "traces")))
 }
 
 // sharedReceiverFactory mimics the OTLP receiver: one instance per component
@@ -654,16 +675,16 @@ func (w *World) sharedReceiverFactory() receiver.Factory {
 	return xreceiver.NewFactory(component.MustNewType(SharedRecvType), newCfg,
 		xreceiver.WithProfiles(func(_ context.Context, s receiver.Settings, _ component.Config, n xconsumer.Profiles) (xreceiver.Profiles, error) {
 			return mk("profiles", s.ID, n)
-		}, stable),
+		}, w.lv(SharedRecvType, "profiles")),
 		xreceiver.WithLogs(func(_ context.Context, s receiver.Settings, _ component.Config, n consumer.Logs) (receiver.Logs, error) {
 			return mk("logs", s.ID, n)
-		}, stable),
+		}, w.lv(SharedRecvType, "logs")),
 		xreceiver.WithMetrics(func(_ context.Context, s receiver.Settings, _ component.Config, n consumer.Metrics) (receiver.Metrics, error) {
 			return mk("metrics", s.ID, n)
-		}, stable),
+		}, w.lv(SharedRecvType, "metrics")),
 		xreceiver.WithTraces(func(_ context.Context, s receiver.Settings, _ component.Config, n consumer.Traces) (receiver.Traces, error) {
 			return mk("traces", s.ID, n)
-		}, stable))
+		}, w.lv(SharedRecvType, "traces")))
 }
 
 // Inject emits one fresh payload tagged tag from the receiver node (signal, id).
@@ -711,19 +732,19 @@ func (w *World) processorFactory() processor.Factory {
 		xprocessor.WithProfiles(func(_ context.Context, s processor.Settings, _ component.Config, n xconsumer.Profiles) (xprocessor.Profiles, error) {
 			c, cs := mk("profiles", s.ID, n)
 			return profilesComp{c, cs.Profiles}, nil
-		}, stable),
+		}, w.lv(ProcType, "profiles")),
 		xprocessor.WithLogs(func(_ context.Context, s processor.Settings, _ component.Config, n consumer.Logs) (processor.Logs, error) {
 			c, cs := mk("logs", s.ID, n)
 			return logsComp{c, cs.Logs}, nil
-		}, stable),
+		}, w.lv(ProcType, "logs")),
 		xprocessor.WithMetrics(func(_ context.Context, s processor.Settings, _ component.Config, n consumer.Metrics) (processor.Metrics, error) {
 			c, cs := mk("metrics", s.ID, n)
 			return metricsComp{c, cs.Metrics}, nil
-		}, stable),
+		}, w.lv(ProcType, "metrics")),
 		xprocessor.WithTraces(func(_ context.Context, s processor.Settings, _ component.Config, n consumer.Traces) (processor.Traces, error) {
 			c, cs := mk("traces", s.ID, n)
 			return tracesComp{c, cs.Traces}, nil
-		}, stable))
+		}, w.lv(ProcType, "traces")))
 }
 
 // exporters -------------------------------------------------------------------
@@ -765,19 +786,19 @@ func (w *World) exporterFactory() exporter.Factory {
 		xexporter.WithProfiles(func(_ context.Context, s exporter.Settings, _ component.Config) (xexporter.Profiles, error) {
 			c, cs := mk("profiles", s.ID)
 			return profilesComp{c, cs.Profiles}, nil
-		}, stable),
+		}, w.lv(ExpType, "profiles")),
 		xexporter.WithLogs(func(_ context.Context, s exporter.Settings, _ component.Config) (exporter.Logs, error) {
 			c, cs := mk("logs", s.ID)
 			return logsComp{c, cs.Logs}, nil
-		}, stable),
+		}, w.lv(ExpType, "logs")),
 		xexporter.WithMetrics(func(_ context.Context, s exporter.Settings, _ component.Config) (exporter.Metrics, error) {
 			c, cs := mk("metrics", s.ID)
 			return metricsComp{c, cs.Metrics}, nil
-		}, stable),
+		}, w.lv(ExpType, "metrics")),
 		xexporter.WithTraces(func(_ context.Context, s exporter.Settings, _ component.Config) (exporter.Traces, error) {
 			c, cs := mk("traces", s.ID)
 			return tracesComp{c, cs.Traces}, nil
-		}, stable))
+		}, w.lv(ExpType, "traces")))
 }
 
 func (w *World) sharedExporterFactory() exporter.Factory {
@@ -797,19 +818,19 @@ func (w *World) sharedExporterFactory() exporter.Factory {
 		xexporter.WithProfiles(func(_ context.Context, s exporter.Settings, _ component.Config) (xexporter.Profiles, error) {
 			c, cs, err := mk("profiles", s.ID)
 			return profilesComp{c, cs.Profiles}, err
-		}, stable),
+		}, w.lv(SharedExpType, "profiles")),
 		xexporter.WithLogs(func(_ context.Context, s exporter.Settings, _ component.Config) (exporter.Logs, error) {
 			c, cs, err := mk("logs", s.ID)
 			return logsComp{c, cs.Logs}, err
-		}, stable),
+		}, w.lv(SharedExpType, "logs")),
 		xexporter.WithMetrics(func(_ context.Context, s exporter.Settings, _ component.Config) (exporter.Metrics, error) {
 			c, cs, err := mk("metrics", s.ID)
 			return metricsComp{c, cs.Metrics}, err
-		}, stable),
+		}, w.lv(SharedExpType, "metrics")),
 		xexporter.WithTraces(func(_ context.Context, s exporter.Settings, _ component.Config) (exporter.Traces, error) {
 			c, cs, err := mk("traces", s.ID)
 			return tracesComp{c, cs.Traces}, err
-		}, stable))
+		}, w.lv(SharedExpType, "traces")))
 }
 
 // connectors ------------------------------------------------------------------
@@ -864,6 +885,8 @@ func (w *World) connectorFactory(c Connector) connector.Factory {
 	for _, p := range c.Pairs {
 		usesProfiles = usesProfiles || strings.Contains(p, "profiles")
 	}
+	// every supported cell declares the level generated for it (any defined level means "supported")
+	lv := func(from, to string) component.StabilityLevel { return Level(factoryOf.LevelOf(from, to)) }
 	var o []connector.FactoryOption
 	var xo []xconnector.FactoryOption
 	if c.Supports("logs", "logs") {
@@ -875,9 +898,9 @@ func (w *World) connectorFactory(c Connector) connector.Factory {
 			return logsComp{cp, cs.Logs}, nil
 		}
 		if usesProfiles {
-			xo = append(xo, xconnector.WithLogsToLogs(fLogsToLogs, stable))
+			xo = append(xo, xconnector.WithLogsToLogs(fLogsToLogs, lv("logs", "logs")))
 		} else {
-			o = append(o, connector.WithLogsToLogs(fLogsToLogs, stable))
+			o = append(o, connector.WithLogsToLogs(fLogsToLogs, lv("logs", "logs")))
 		}
 	}
 	if c.Supports("logs", "metrics") {
@@ -889,9 +912,9 @@ func (w *World) connectorFactory(c Connector) connector.Factory {
 			return logsComp{cp, cs.Logs}, nil
 		}
 		if usesProfiles {
-			xo = append(xo, xconnector.WithLogsToMetrics(fLogsToMetrics, stable))
+			xo = append(xo, xconnector.WithLogsToMetrics(fLogsToMetrics, lv("logs", "metrics")))
 		} else {
-			o = append(o, connector.WithLogsToMetrics(fLogsToMetrics, stable))
+			o = append(o, connector.WithLogsToMetrics(fLogsToMetrics, lv("logs", "metrics")))
 		}
 	}
 	if c.Supports("logs", "traces") {
@@ -903,9 +926,9 @@ func (w *World) connectorFactory(c Connector) connector.Factory {
 			return logsComp{cp, cs.Logs}, nil
 		}
 		if usesProfiles {
-			xo = append(xo, xconnector.WithLogsToTraces(fLogsToTraces, stable))
+			xo = append(xo, xconnector.WithLogsToTraces(fLogsToTraces, lv("logs", "traces")))
 		} else {
-			o = append(o, connector.WithLogsToTraces(fLogsToTraces, stable))
+			o = append(o, connector.WithLogsToTraces(fLogsToTraces, lv("logs", "traces")))
 		}
 	}
 	if c.Supports("logs", "profiles") {
@@ -916,7 +939,7 @@ func (w *World) connectorFactory(c Connector) connector.Factory {
 			}
 			return logsComp{cp, cs.Logs}, nil
 		}
-		xo = append(xo, xconnector.WithLogsToProfiles(fLogsToProfiles, stable))
+		xo = append(xo, xconnector.WithLogsToProfiles(fLogsToProfiles, lv("logs", "profiles")))
 	}
 	if c.Supports("metrics", "logs") {
 		fMetricsToLogs := func(_ context.Context, s connector.Settings, _ component.Config, n consumer.Logs) (connector.Metrics, error) {
@@ -927,9 +950,9 @@ func (w *World) connectorFactory(c Connector) connector.Factory {
 			return metricsComp{cp, cs.Metrics}, nil
 		}
 		if usesProfiles {
-			xo = append(xo, xconnector.WithMetricsToLogs(fMetricsToLogs, stable))
+			xo = append(xo, xconnector.WithMetricsToLogs(fMetricsToLogs, lv("metrics", "logs")))
 		} else {
-			o = append(o, connector.WithMetricsToLogs(fMetricsToLogs, stable))
+			o = append(o, connector.WithMetricsToLogs(fMetricsToLogs, lv("metrics", "logs")))
 		}
 	}
 	if c.Supports("metrics", "metrics") {
@@ -941,9 +964,9 @@ func (w *World) connectorFactory(c Connector) connector.Factory {
 			return metricsComp{cp, cs.Metrics}, nil
 		}
 		if usesProfiles {
-			xo = append(xo, xconnector.WithMetricsToMetrics(fMetricsToMetrics, stable))
+			xo = append(xo, xconnector.WithMetricsToMetrics(fMetricsToMetrics, lv("metrics", "metrics")))
 		} else {
-			o = append(o, connector.WithMetricsToMetrics(fMetricsToMetrics, stable))
+			o = append(o, connector.WithMetricsToMetrics(fMetricsToMetrics, lv("metrics", "metrics")))
 		}
 	}
 	if c.Supports("metrics", "traces") {
@@ -955,9 +978,9 @@ func (w *World) connectorFactory(c Connector) connector.Factory {
 			return metricsComp{cp, cs.Metrics}, nil
 		}
 		if usesProfiles {
-			xo = append(xo, xconnector.WithMetricsToTraces(fMetricsToTraces, stable))
+			xo = append(xo, xconnector.WithMetricsToTraces(fMetricsToTraces, lv("metrics", "traces")))
 		} else {
-			o = append(o, connector.WithMetricsToTraces(fMetricsToTraces, stable))
+			o = append(o, connector.WithMetricsToTraces(fMetricsToTraces, lv("metrics", "traces")))
 		}
 	}
 	if c.Supports("metrics", "profiles") {
@@ -968,7 +991,7 @@ func (w *World) connectorFactory(c Connector) connector.Factory {
 			}
 			return metricsComp{cp, cs.Metrics}, nil
 		}
-		xo = append(xo, xconnector.WithMetricsToProfiles(fMetricsToProfiles, stable))
+		xo = append(xo, xconnector.WithMetricsToProfiles(fMetricsToProfiles, lv("metrics", "profiles")))
 	}
 	if c.Supports("traces", "logs") {
 		fTracesToLogs := func(_ context.Context, s connector.Settings, _ component.Config, n consumer.Logs) (connector.Traces, error) {
@@ -979,9 +1002,9 @@ func (w *World) connectorFactory(c Connector) connector.Factory {
 			return tracesComp{cp, cs.Traces}, nil
 		}
 		if usesProfiles {
-			xo = append(xo, xconnector.WithTracesToLogs(fTracesToLogs, stable))
+			xo = append(xo, xconnector.WithTracesToLogs(fTracesToLogs, lv("traces", "logs")))
 		} else {
-			o = append(o, connector.WithTracesToLogs(fTracesToLogs, stable))
+			o = append(o, connector.WithTracesToLogs(fTracesToLogs, lv("traces", "logs")))
 		}
 	}
 	if c.Supports("traces", "metrics") {
@@ -993,9 +1016,9 @@ func (w *World) connectorFactory(c Connector) connector.Factory {
 			return tracesComp{cp, cs.Traces}, nil
 		}
 		if usesProfiles {
-			xo = append(xo, xconnector.WithTracesToMetrics(fTracesToMetrics, stable))
+			xo = append(xo, xconnector.WithTracesToMetrics(fTracesToMetrics, lv("traces", "metrics")))
 		} else {
-			o = append(o, connector.WithTracesToMetrics(fTracesToMetrics, stable))
+			o = append(o, connector.WithTracesToMetrics(fTracesToMetrics, lv("traces", "metrics")))
 		}
 	}
 	if c.Supports("traces", "traces") {
@@ -1007,9 +1030,9 @@ func (w *World) connectorFactory(c Connector) connector.Factory {
 			return tracesComp{cp, cs.Traces}, nil
 		}
 		if usesProfiles {
-			xo = append(xo, xconnector.WithTracesToTraces(fTracesToTraces, stable))
+			xo = append(xo, xconnector.WithTracesToTraces(fTracesToTraces, lv("traces", "traces")))
 		} else {
-			o = append(o, connector.WithTracesToTraces(fTracesToTraces, stable))
+			o = append(o, connector.WithTracesToTraces(fTracesToTraces, lv("traces", "traces")))
 		}
 	}
 	if c.Supports("traces", "profiles") {
@@ -1020,7 +1043,7 @@ func (w *World) connectorFactory(c Connector) connector.Factory {
 			}
 			return tracesComp{cp, cs.Traces}, nil
 		}
-		xo = append(xo, xconnector.WithTracesToProfiles(fTracesToProfiles, stable))
+		xo = append(xo, xconnector.WithTracesToProfiles(fTracesToProfiles, lv("traces", "profiles")))
 	}
 	if c.Supports("profiles", "logs") {
 		fProfilesToLogs := func(_ context.Context, s connector.Settings, _ component.Config, n consumer.Logs) (xconnector.Profiles, error) {
@@ -1030,7 +1053,7 @@ func (w *World) connectorFactory(c Connector) connector.Factory {
 			}
 			return profilesComp{cp, cs.Profiles}, nil
 		}
-		xo = append(xo, xconnector.WithProfilesToLogs(fProfilesToLogs, stable))
+		xo = append(xo, xconnector.WithProfilesToLogs(fProfilesToLogs, lv("profiles", "logs")))
 	}
 	if c.Supports("profiles", "metrics") {
 		fProfilesToMetrics := func(_ context.Context, s connector.Settings, _ component.Config, n consumer.Metrics) (xconnector.Profiles, error) {
@@ -1040,7 +1063,7 @@ func (w *World) connectorFactory(c Connector) connector.Factory {
 			}
 			return profilesComp{cp, cs.Profiles}, nil
 		}
-		xo = append(xo, xconnector.WithProfilesToMetrics(fProfilesToMetrics, stable))
+		xo = append(xo, xconnector.WithProfilesToMetrics(fProfilesToMetrics, lv("profiles", "metrics")))
 	}
 	if c.Supports("profiles", "traces") {
 		fProfilesToTraces := func(_ context.Context, s connector.Settings, _ component.Config, n consumer.Traces) (xconnector.Profiles, error) {
@@ -1050,7 +1073,7 @@ func (w *World) connectorFactory(c Connector) connector.Factory {
 			}
 			return profilesComp{cp, cs.Profiles}, nil
 		}
-		xo = append(xo, xconnector.WithProfilesToTraces(fProfilesToTraces, stable))
+		xo = append(xo, xconnector.WithProfilesToTraces(fProfilesToTraces, lv("profiles", "traces")))
 	}
 	if c.Supports("profiles", "profiles") {
 		fProfilesToProfiles := func(_ context.Context, s connector.Settings, _ component.Config, n xconsumer.Profiles) (xconnector.Profiles, error) {
@@ -1060,7 +1083,7 @@ func (w *World) connectorFactory(c Connector) connector.Factory {
 			}
 			return profilesComp{cp, cs.Profiles}, nil
 		}
-		xo = append(xo, xconnector.WithProfilesToProfiles(fProfilesToProfiles, stable))
+		xo = append(xo, xconnector.WithProfilesToProfiles(fProfilesToProfiles, lv("profiles", "profiles")))
 	}
 	if usesProfiles {
 		return xconnector.NewFactory(component.MustNewType(typeOf(c.ID)), newCfg, xo...)
